@@ -604,13 +604,13 @@ def run_cli_variants(cx, docs, wd):
         if sd == "file":
             sts = [s for s in sts if not s.esc_data]
         for k, st in enumerate(sts):
-            vjobs.append((i, k, st, tree))
+            vjobs.append((i, k, st, render_text(tree, st)))       # rendered here: the generator is not shared between threads
 
     def run_v(t):
-        i, k, st, tree = t
+        i, k, st, text = t
         dd, sd, dl = jobs[i]
         vp = os.path.join(wd, "v%d-var%d.json" % (i, k))
-        open(vp, "wb").write(render_text(tree, st))
+        open(vp, "wb").write(text)
         out_in, out_upd = vp + ".in.json", vp + ".upd.json"
         a = q(["--json-input", "--json-output", "--json-stream-data=inline", "--decode-level=none", vp, out_in], cwd=wd)
         b = q(["--update-from-json=" + vp, "--json-output", "--json-stream-data=inline", "--decode-level=none", dd["path"], out_upd], cwd=wd)
@@ -618,7 +618,7 @@ def run_cli_variants(cx, docs, wd):
     vres = common.par_map(run_v, vjobs)
     nontriv = set()
     refs = {}
-    for (i, k, st, tree), (vp, a, out_in, b, out_upd) in zip(vjobs, vres):
+    for (i, k, st, _text), (vp, a, out_in, b, out_upd) in zip(vjobs, vres):
         dd, sd, dl = jobs[i]
         r, g1, ref_in, ref_upd, own, r_in, r_upd = g1s[i]
         if i not in refs:
@@ -685,15 +685,15 @@ def run_cli_variants(cx, docs, wd):
                     sub.append((k, JO([("value", val)])))
             edit = JO([("qpdf", [JO([("jsonversion", JNum("2"))]), sub])])
             st = rng.choice([Style(rng, order="dict-first"), Style(rng, order="shuffle", ws="compact", esc=0.3), Style(rng, order="reverse", ws="wild", nums=True)])
-            ejobs.append((i, rep, pick, edit, st))
+            ejobs.append((i, rep, pick, (render_text(edit, Style(rng)), render_text(edit, st)), st))
 
     def run_e(t):
-        i, rep, pick, edit, st = t
+        i, rep, pick, texts, st = t
         dd, sd, dl = jobs[i]
         outs = []
-        for tag, style in (("own", Style(rng)), ("var", st)):
+        for tag, text in zip(("own", "var"), texts):
             ep = os.path.join(wd, "v%d-edit%d-%s.json" % (i, rep, tag))
-            open(ep, "wb").write(render_text(edit, style))
+            open(ep, "wb").write(text)
             after = ep + ".after.json"
             r = q(["--update-from-json=" + ep, "--json-output", "--json-stream-data=inline", "--decode-level=none", dd["path"], after], cwd=wd)
             outs.append((ep, r, after))
@@ -701,7 +701,7 @@ def run_cli_variants(cx, docs, wd):
     eres = common.par_map(run_e, ejobs)
     nontriv = set()
     pend = []
-    for (i, rep, pick, edit, st), outs in zip(ejobs, eres):
+    for (i, rep, pick, _texts, st), outs in zip(ejobs, eres):
         dd, sd, dl = jobs[i]
         own = objects_of(load_canon(g1s[i][4]))
         (ep0, r0, after0), (ep1, r1, after1) = outs
